@@ -121,6 +121,13 @@ CHECKS = {
         design="§3 C15, §2 E4",
         note="Trusted: the cooperative scheduler's determinism guard (a replayed prefix that offers fewer choices is a harness error), goroutine wait reasons from runtime.Stack for lock detection, Go's race detector for the free-running pass.",
     ),
+    "C11": dict(
+        engine="schedwalk",
+        technique="stateless model checking under a controlled scheduler inside testing/synctest bubbles: threads = the submitter (one scheduling point per submission) and one delivery goroutine per (event, channel) spawned by the real notification.Notifier (one scheduling point at its start; quiescence = synctest.Wait); channels = the real WebhooksService over the SQL repository with a scripted client, the real websocket channel with a recording publisher, a recording channel; per-channel behaviour {ok, error, never returns}; DFS by replay over all schedules with global-state memoisation (histories of length 1-2) / preemption bound 1 (length 3); oracle: per channel exactly one event per stored header with all nine fields equal to the stored header, none for duplicate / forbidden / failed submissions, the submitter finishes in every schedule",
+        text="Exhaustive: 30 histories x 27 behaviour combinations (all schedules) + 5 longer histories x 27 (bounded). A real centrifuge client subscription is not part of the check (the publisher seam is the node's Publish).",
+        design="§3 C11",
+        note="Trusted: testing/synctest quiescence; the scripted sinks. The insert failure is injected by a decorator on repository.Headers for one hash.",
+    ),
 }
 
 NOT_YET = "check not built yet in this session (work in progress; see DESIGN.md §7 for the order of work)"
